@@ -33,9 +33,12 @@ Res(c, d, r) ==
       [] c.res = "vec" -> <<A("u") - A("f"), A("u") + A("x")>>
       [] c.res = "per0" -> <<A("u_left") - A("u_right")>>
       [] c.res = "per" -> <<A("u_left") - A("u_right") + A("f_left") - 2 * A("f_right")>>
+      \* derivatives of the left / right outputs w.r.t. the non-periodic and the periodic coordinate: du/dt + 2 du/dt + 5 du/dx
+      [] c.res = "per_d" -> <<3 * c.model[2] + 5 * c.model[1] + 0 * A("t")>>
 Needs(res) == CASE res = "u_f" -> {"u", "f"} [] res = "ku_x" -> {"u", "x", "kappa"} [] res = "ux_t" -> {"u", "x", "t"}
                 [] res = "echo" -> {"u", "x", "t"} [] res = "echofg" -> {"u", "x", "t", "f", "g"} [] res = "vec" -> {"u", "f", "x"}
                 [] res = "per0" -> {"u_left", "u_right"} [] res = "per" -> {"u_left", "u_right", "f_left", "f_right"}
+                [] res = "per_d" -> {"u_left", "u_right", "t", "x_left"}
 \* n * loss as an integer
 LossTimesN(c, d) ==
     LET n == Len(c.rows) IN
